@@ -198,7 +198,13 @@ fn class_completion_case(rng: &mut Rng, ctx: &mut Ctx) {
     let mut k = 0;
     let mut decl = |out: &mut String, rng: &mut Rng, classes: &mut Vec<(String, usize)>| {
         k += 1;
-        let name = format!("K{}{}", k, ["", "_x", "Cls"][rng.below(3)]);
+        let mut name = format!("K{}{}", k, ["", "_x", "Cls"][rng.below(3)]);
+        // now and then a class whose name differs from an earlier one only in the case of its letters
+        if rng.chance(1, 6) {
+            if let Some((prev, _)) = classes.iter().find(|(n, _)| n.to_uppercase() != *n && !classes.iter().any(|(m, _)| *m == n.to_uppercase())) {
+                name = prev.to_uppercase();
+            }
+        }
         let ar = rng.below(4);
         // the forward-declaration idiom: `class K;` first, the real definition afterwards (still ONE class)
         if rng.chance(1, 4) {
@@ -234,7 +240,14 @@ fn class_completion_case(rng: &mut Rng, ctx: &mut Ctx) {
             }
             s.push('>');
         }
-        s.push_str(if rng.chance(1, 2) { ";\n" } else { " { int f = 1; }\n" });
+        // bodies: none, a plain field, or operators that open a scope of their own around a part without an
+        // inferable type (!cond), so that scope bookkeeping is exercised before later declarations
+        s.push_str(match rng.below(6) {
+            0 | 1 => ";\n",
+            2 | 3 => " { int f = 1; }\n",
+            4 => " { list<int> l = !filter(x, [1, 2, 3], !cond(true: true)); int g = !foldl(0, [1, 2], a, b, !cond(true: a)); }\n",
+            _ => " { list<int> m = !foreach(x, [1, 2], !cond(true: x)); list<int> n = !filter(y, m, !cond(!lt(y, 2): true, true: false)); }\n",
+        });
         out.push_str(&s);
         classes.push((name, ar));
     };
@@ -249,7 +262,12 @@ fn class_completion_case(rng: &mut Rng, ctx: &mut Ctx) {
         decl(&mut root, rng, &mut classes);
     }
     // also a def and a multiclass, which must NOT be offered as classes
-    root.push_str("def NotAClass;\nmulticlass NotAClassEither { def _a; }\n");
+    // (the multiclass has template parameters of its own in half of the cases, and is used by the defm positions)
+    let mc_params = rng.chance(1, 2);
+    root.push_str(if mc_params { "def NotAClass;\nmulticlass NotAClassEither<int lo = 0, int hi = 1> { def _a; }\n" } else { "def NotAClass;\nmulticlass NotAClassEither { def _a; }\n" });
+    if mc_params {
+        ctx.feature("multiclass_with_parameters_after_classes");
+    }
     // the parent-class position
     let target = classes[rng.below(classes.len())].0.clone();
     let prefix_len = rng.range(1, target.len());
@@ -289,11 +307,44 @@ fn class_completion_case(rng: &mut Rng, ctx: &mut Ctx) {
     case["offset"] = json!(offset);
     ctx.eval();
     ctx.current_json(&case);
-    let r = guard(|| {
-        let l = ws::load(&w);
-        let a = l.analysis();
-        a.completion(FilePosition::new(l.root, (offset as u32).into()), None)
-    });
+    // every fourth case asks the real server (in process, over JSON-RPC) instead of the ide crate: what the editor
+    // receives is what counts
+    let on_the_wire = rng.chance(1, 4);
+    let r: Result<Option<Vec<CompletionItem>>, PanicInfo> = if on_the_wire {
+        crate::lspdrv::install_counting_hook();
+        let mut s = crate::lspdrv::Session::start("C20");
+        for (path, text) in &w.files {
+            s.write_disk(path, text);
+        }
+        s.did_open(&w.files[0].0, &w.files[0].1);
+        let rp = crate::refpos::RefPos::new(&w.files[0].1);
+        let (line, col) = rp.to_line_col(offset);
+        let res = s.call("textDocument/completion", json!({"textDocument": {"uri": s.uri(&w.files[0].0)}, "position": {"line": line, "character": col}}), crate::lspdrv::WATCHDOG);
+        let out = match res {
+            None => {
+                ctx.feature("watchdog");
+                ctx.note("completion request on the wire got no answer (no verdict)");
+                s.abandon();
+                return;
+            }
+            Some((res, _)) => {
+                let arr = res.and_then(|v| v.as_array().cloned().or_else(|| v["items"].as_array().cloned())).unwrap_or_default();
+                arr.iter()
+                    .filter(|i| i["kind"].as_u64() == Some(7))
+                    .map(|i| CompletionItem { label: i["label"].as_str().unwrap_or("").into(), detail: String::new(), insert_text_snippet: i["insertText"].as_str().map(|s| s.to_string()), kind: CompletionItemKind::Class })
+                    .collect::<Vec<_>>()
+            }
+        };
+        s.shutdown();
+        ctx.feature("class_completion_on_the_wire");
+        Ok(Some(out))
+    } else {
+        guard(|| {
+            let l = ws::load(&w);
+            let a = l.analysis();
+            a.completion(FilePosition::new(l.root, (offset as u32).into()), None)
+        })
+    };
     match r {
         Err(pi) => ctx.panic_violation("class-completion:", &pi, case),
         Ok(items) => {
@@ -386,7 +437,7 @@ impl Check for C20 {
         "EXHAUSTIVE over the finite vocabularies: every item Analysis::completion offers at 6 keyword/type/value fixtures and 3 '!'-trigger fixtures is lexed by the server's Lexer and must be exactly one token of the keyword / type / operator kind an independent name table assigns (c14.rs tables); every file-level keyword must start a minimal statement of the documented grammar that syntax::parse accepts with zero errors; every offered type must be accepted in a field declaration; for every candidate operator name (the reference's 52 names + known variants + everything offered) that the Lexer classifies as a bang/cond operator, the name must be among the operators offered after '!'. SAMPLED: random workspaces (root + optional include) declaring 1-9 classes of arity 0-3 (parameters with and without defaults: literals, `?`, operator expressions with and without an inferable type) plus a def and a multiclass; completion at a parent-class position (class and def parents, first and later parent, a def under `let`, the class positions of a defm parent list after its multiclass - at file level, under foreach and inside a multiclass -, statement closed or still being typed, prefix of every length) must offer exactly the workspace's classes, each with one snippet placeholder per template parameter. non-trivial = each (fixture, offered item) pair and each class-completion workspace; distinct by digest".into()
     }
     fn floors(&self, tier: Tier) -> Vec<(&'static str, u64)> {
-        vec![("vocabulary_unit", 1), ("vocabulary_items", 30), ("operator_items", 100), ("lexer_accepted_operators", 150), ("toplevel_statements_parsed", 20), ("class_completion_cases", tier.pick(3500, 60_000)), ("class_completion_with_include", 300), ("arity:3", 100), ("parent_position:defm-after-multiclass", 100), ("parent_position:defm-in-multiclass", 100), ("parent_position:def-in-let", 100)]
+        vec![("vocabulary_unit", 1), ("vocabulary_items", 30), ("operator_items", 100), ("lexer_accepted_operators", 150), ("toplevel_statements_parsed", 20), ("class_completion_cases", tier.pick(3500, 60_000)), ("class_completion_with_include", 300), ("arity:3", 100), ("parent_position:defm-after-multiclass", 100), ("parent_position:defm-in-multiclass", 100), ("parent_position:def-in-let", 100), ("class_completion_on_the_wire", 500), ("multiclass_with_parameters_after_classes", 500)]
     }
     fn exhaustive(&self, _tier: Tier) -> Option<String> {
         Some("the completion vocabularies at the 9 fixtures x the lexer's keyword and operator tables (finite)".into())
